@@ -95,7 +95,7 @@ def gen_mvnd():
         "seed": st.integers(0, 10**6), "logscale": f32(-3, 3), "ctor": st.sampled_from(["init", "penalty", "smooth"]),
         "give_rank": st.booleans(), "give_log_pdet": st.booleans(),
         "loc_batch": st.sampled_from([[], [], [3], [2, 3], [1]]), "scale_batch": st.sampled_from([[], [], [3], [2, 3]]),
-        "offrange": st.booleans(),
+        "offrange": st.booleans(), "int_pen": st.booleans(),
     })
 
 
@@ -108,6 +108,11 @@ def ref_logprob(P, r, mu, x):
     return -0.5 * (r * math.log(2 * math.pi) - logpdet) - 0.5 * dlt @ P @ dlt, V[:, : len(w) - r]
 
 
+def int_typed(c):
+    # (float32 shards only: jax promotes int32 matrices to float32 also under x64, so the x64 tolerances would not apply)
+    return bool(c.get("int_pen")) and not x64() and c["pen"] == "diff" and min(c["order"], c["d"] - 1) >= 1
+
+
 def construct(c, K, r, scale, loc, ctor, give_rank, give_log_pdet):
     dt = fdtype()
     Kj = jnp.asarray(K.astype(dt))
@@ -115,6 +120,17 @@ def construct(c, K, r, scale, loc, ctor, give_rank, give_log_pdet):
     sc = jnp.asarray(np.asarray(scale, dtype=dt))
     w = np.linalg.eigvalsh(K)
     lp_pen = float(np.sum(np.log(w[-r:])))
+    if int_typed(c) and ctor in ("init", "smooth"):
+        # an integer-typed penalty / precision matrix (difference penalties are integer matrices), unit scale
+        Ki = jnp.asarray(K.astype(np.int32))
+        kw = {}
+        if give_rank:
+            kw["rank"] = r
+        if give_log_pdet:
+            kw["log_pdet"] = dt(lp_pen)
+        if ctor == "init":
+            return MultivariateNormalDegenerate(loc=locj, prec=Ki, **kw)
+        return MultivariateNormalDegenerate.from_penalty_smooth(loc=locj, smooth=1, pen=Ki, **kw)
     if ctor == "init":
         # scale acts as a precision multiplier
         prec = Kj * jnp.expand_dims(sc, (-2, -1))
@@ -139,7 +155,11 @@ def oracle_mvnd(c):
     d = c["d"]
     rng = np.random.default_rng([c["seed"], 1])
     sb, lb = tuple(c["scale_batch"]), tuple(c["loc_batch"])
+    if int_typed(c):
+        sb = ()
     scale = np.exp(rng.uniform(-1, 1, size=sb) + c["logscale"] * math.log(10) * 0.999) if sb else np.float64(10 ** c["logscale"])
+    if int_typed(c):
+        scale = np.float64(1.0)
     loc = rng.normal(size=lb + (d,))
     batch = np.broadcast_shapes(sb, lb)
     # evaluation points: in the range space or anywhere
@@ -193,7 +213,7 @@ def oracle_mvnd(c):
                     lambda: f"{c['ctor']}(rank={give_rank},lpd={c['give_log_pdet']}) vs {ctor}(rank={gr},lpd={gl}): {lp.tolist()} vs {lpo.tolist()}; {c}")
     nt = (r < d and c["offrange"]) or (sb != lb and (sb or lb))
     return {"nt": bool(nt), "cls": ["x64" if x64() else "f32", c["ctor"], f"r{'<' if r < d else '='}d", "batch" if batch else "nobatch",
-                                    "rank-free" if not give_rank else "rank-given"], "extra": {"max_err_over_tol": worst}}
+                                    "rank-free" if not give_rank else "rank-given", "int-penalty" if int_typed(c) else "float-penalty"], "extra": {"max_err_over_tol": worst}}
 
 
 # ------------------------------------------------------------------------------ samples
@@ -271,12 +291,13 @@ def oracle_bij(c):
     fx = float(b.forward(xj))
     ref_f = x / math.sqrt(1 + x * x)
     require(abs(fx - ref_f) <= 4 * eps, "bijector:forward-value", f"x={x}: {fx} vs {ref_f}")
-    back = float(b.inverse(b.forward(xj)))
+    # (a fresh array object: TFP caches forward results and would hand x back for the very same y object without calling the inverse)
+    back = float(b.inverse(jnp.asarray(np.asarray(b.forward(xj)))))
     require(abs(back - x) <= 8 * eps * (1 + x * x) ** 1.5 + 4 * eps * abs(x), "bijector:inverse-does-not-undo-forward", f"x={x}: inverse(forward(x))={back}")
     iy = float(b.inverse(yj))
     ref_i = y / math.sqrt(1 - y * y)
     require(abs(iy - ref_i) <= 8 * eps * (1 + abs(ref_i)) / (1 - y * y), "bijector:inverse-value", f"y={y}: {iy} vs {ref_i}")
-    fwd = float(b.forward(b.inverse(yj)))
+    fwd = float(b.forward(jnp.asarray(np.asarray(b.inverse(yj)))))
     require(abs(fwd - y) <= 16 * eps, "bijector:forward-does-not-undo-inverse", f"y={y}: forward(inverse(y))={fwd}")
     fl = float(b.forward_log_det_jacobian(xj, event_ndims=0))
     ref_fl = -1.5 * math.log1p(x * x)
